@@ -91,6 +91,7 @@ strengthened = {
     "C16-k": "C16: after the help round another client with a different terminal width connects (to another pool of the process); the help shown to the first client must not change",
     "C17-k": "C17: pool sizes beyond 2**53 (2**53+1, 10**18+1, 10**30)",
     "C18-k": "C18: application code waits for the close of the served pool and gives up (its until_closed() call is cancelled); parked sessions must stay alive (their session task is checked)",
+    "C04-j": "(caught on arrival, 1-2 of 3 VERIF_SEEDs in the matrix) sweep operation 'pause_resume': pool_size 0 and back to the constructor's size in one handle, at every placement",
     "C02-i": "(caught on arrival, weak in the 3-seed matrix) sweep base with gather_and_close() already waiting for gated workers and slow cancel callbacks; gather_and_close more frequent in the C02 generator",
     "C08-e": "C08: pool_size assignments in the C08 generator (while tasks are inside callbacks)",
     "C13-e": "C13: new 'server' family - a session's pending flush plus the program's own flush while the control server is stopped; pool generator: flush calls whose caller gives up (cancelled flush) are modelled",
